@@ -44,6 +44,7 @@ pub fn doc_labels(c: &mut Case, d: &Doc) {
     c.label_if(has_label_boundary_len(f), "boundary_len");
     c.label_if(any_node(f, &|n| n.enc.size_w != 0 && !n.enc.unknown), "explicit_width");
     c.label_if(any_node(f, &|n| n.enc.full), "has_full");
+    c.label_if(any_node(f, &|n| n.is_master() && n.enc.flat_in_full), "start_end_pair_inside_full");
     c.label_if(any_node(f, &|n| matches!(&n.kind, NodeKind::Leaf(Payload::I(v)) if *v < 0)), "neg_int");
     c.label_if(any_node(f, &|n| matches!(&n.kind, NodeKind::Leaf(Payload::F(_)))), "float");
     c.label_if(any_node(f, &|n| matches!(&n.kind, NodeKind::Leaf(Payload::Raw(_)))), "raw_tags");
